@@ -208,11 +208,56 @@ def set_cons(a, zs, sc):
         return a.le(a.quad(z, sc['Q']), sc['r'])
     if t == 'sumsqr':
         return a.le(a.sumsqr(z), sc['r'])
+    if t == 'kldiv':
+        return a.kldiv(z, arr(sc['q']), sc['r'])
+    if t == 'entropy':
+        return a.ge(a.entropy(z if sc.get('c') is None else z + arr(sc['c'])), sc['r'])
+    if t == 'sumexp':
+        return a.le(a.sumexp(z if sc.get('scale') is None else arr(sc['scale']) * z), sc['r'])
+    if t == 'explin':
+        # exp(z_i) <= w_j element-wise against another random vector (lifted set)
+        return a.le(a.exp(z), zs[sc['u']])
+    if t == 'log':
+        return a.ge(a.sumlog(z + arr(sc['c'])), sc['r'])
     if t == 'lift':
         # lifted set: u >= |z| (u = zs[sc['u']]) and sum(u) <= r
         u = zs[sc['u']]
         return [a.le(a.abs(z), u), a.le(a.sum(u), sc['r'])]
     raise ValueError(t)
+
+
+# ------------------------------------------------------------------ exponential-cone uncertainty sets (C01 only)
+def expset_specs():
+    S = []
+    simplex = [dict(t='lo', z=0, v=0.0), dict(t='lin', e=[['z', 0, 1.0]], sense='eq', rhs=1.0)]
+    base = dict(dv=[dict(shape=[3]), dict(shape=[])], rv=[[3]],
+                bounds=[dict(x=0, lo=0.0, hi=0.75), dict(x=1, lo=-10.0, hi=10.0)])
+
+    def add(name, sets, rows, obj, **kw):
+        d = dict(base)
+        d.update(kw)
+        d.update(name=name, sets=sets, rows=rows, obj=obj)
+        S.append(d)
+    cost = [['xz', 0, 0, [[1.0, 0, 0], [0, 2.0, 0], [0, 0, 4.0]]], ['x', 1, -1.0]]
+    budget = dict(e=[['x', 0, 1.0]], sense='eq', rhs=1.0)
+    kl = simplex + [dict(t='kldiv', z=0, q=[0.25, 0.25, 0.5], r=0.125)]
+    add('expset-kl', [kl], [dict(e=cost, sense='le', rhs=0.0, set=0), budget], dict(kind='min', e=[['x', 1, 1.0]]))
+    add('expset-kl-minmax', [kl], [budget],
+        dict(kind='minmax', e=[['xz', 0, 0, [[1.0, 0, 0], [0, 2.0, 0], [0, 0, 4.0]]]], set=0))
+    ent = simplex + [dict(t='entropy', z=0, r=0.75)]
+    add('expset-entropy', [ent], [dict(e=cost, sense='le', rhs=0.0, set=0), budget], dict(kind='min', e=[['x', 1, 1.0]]))
+    add('expset-entropy-ge', [ent], [dict(e=[['xz', 0, 0, [[1.0, 0, 0], [0, 2.0, 0], [0, 0, 4.0]]], ['x', 1, -1.0]],
+                                         sense='ge', rhs=0.0, set=0), budget], dict(kind='max', e=[['x', 1, 1.0]]))
+    se = [dict(t='sumexp', z=0, r=4.0), dict(t='lo', z=0, v=-1.0), dict(t='hi', z=0, v=1.0)]
+    add('expset-sumexp', [se], [dict(e=cost, sense='le', rhs=0.0, set=0), budget], dict(kind='min', e=[['x', 1, 1.0]]))
+    lg = [dict(t='log', z=0, c=[1.0, 1.0, 1.0], r=0.0), dict(t='hi', z=0, v=1.0)]
+    add('expset-sumlog', [lg], [dict(e=cost, sense='le', rhs=0.0, set=0), budget], dict(kind='min', e=[['x', 1, 1.0]]))
+    # KL set and a decision rule
+    add('expset-kl-ldr', [kl], [dict(e=[['xz', 0, 0, [[1.0, 0, 0], [0, 2.0, 0], [0, 0, 4.0]]], ['y', 0, -1.0]],
+                                     sense='le', rhs=0.0, set=0),
+                                dict(e=[['y', 0, 1.0], ['x', 1, -1.0]], sense='le', rhs=0.0, set=0), budget],
+        dict(kind='min', e=[['x', 1, 1.0]]), ldr=[dict(shape=[], deps=[dict(z=0)])])
+    return S
 
 
 # ------------------------------------------------------------------ curated core
